@@ -89,13 +89,17 @@ func (l capLogger) StdLogger(zapcore.Level) *stdlog.Logger {
 	return stdlog.New(io.Discard, "", 0)
 }
 func (l capLogger) Log(_ zapcore.Level, m string, _ ...zap.Field) { l.rec(m) }
+// rec classifies a log message by keyword.  The class is printed (`log=`) for the reader of a replay
+// and counted in the statistics; the checks project it out of the comparison - log texts are not
+// part of any property and a reworded message must not raise an alarm.
 func (l capLogger) rec(m string) {
-	switch m {
-	case "upstream token expired":
+	lm := strings.ToLower(m)
+	switch {
+	case strings.Contains(lm, "token expired"):
 		l.sink.add("expired")
-	case "session closed unexpectedly":
+	case strings.Contains(lm, "unexpected"):
 		l.sink.add("unexpected")
-	case "handler panic":
+	case strings.Contains(lm, "panic"):
 		l.sink.add("panic")
 	}
 }
